@@ -75,10 +75,21 @@ func (w *worker) fails(q *respgen.Program, symptom string) (bool, respgen.Findin
 	}
 	o := w.env.Run(q)
 	fs, _ := respgen.Check(q, e, o)
-	if len(fs) > 0 && fs[0].Symptom == symptom {
+	if len(fs) > 0 && base(fs[0].Symptom) == base(symptom) {
 		return true, fs[0]
 	}
 	return false, respgen.Finding{}
+}
+
+// base strips the parenthesised decoder-error class: while a program is
+// minimised the class may change (a long garbage prefix is a "line too
+// long", a short one an "invalid byte in chunk length"); the signature is
+// built from what the minimal program shows.
+func base(sym string) string {
+	if i := strings.IndexByte(sym, '('); i > 0 {
+		return sym[:i]
+	}
+	return sym
 }
 
 func (w *worker) evaluate(c caseT) {
@@ -168,7 +179,7 @@ func (w *worker) evaluate(c caseT) {
 		// cannot happen (the original itself fails); keep the original
 		minP, f = p, prim
 	}
-	sig := "c09:" + respgen.Class(minP, respgen.Model(minP)) + ":" + prim.Symptom
+	sig := "c09:" + respgen.Class(minP, respgen.Model(minP)) + ":" + f.Symptom
 	r.Count("sig:"+sig, 1)
 	if w.reported[sig] {
 		return
